@@ -138,6 +138,7 @@ pub fn c07(cfg: &Cfg, idx: u64, st: &mut Stats) {
             plan: Plan::clean(),
             random: Some((gen::benign_shape(&mut rng), rng.next_u64())),
         };
+        case.plan.vectored = rng.chance(1, 3);
         if rng.chance(1, 10) {
             // "bytes_written() ALWAYS equals the number of bytes the sink has
             // accepted so far": also right after a call that failed half-way
@@ -182,8 +183,46 @@ fn c01_exhaustive_case(e: u64) -> BuildCase {
     BuildCase::clean(TaskSpec { front: Front::Map, registry: geo, ops, fin: Fin::IntoInner })
 }
 
+pub const C01_DELTAS: [u64; 11] = [
+    255,
+    256,
+    257,
+    65_535,
+    65_536,
+    65_537,
+    (1 << 24) - 1,
+    1 << 24,
+    (1 << 24) + 1,
+    1_000_000,
+    4_000,
+];
+
 pub fn c01(cfg: &Cfg, idx: u64, st: &mut Stats) {
     let (bigs, _) = c01_sizes(cfg);
+    let dstart = bigs + C01_EXHAUSTIVE;
+    if idx >= dstart && idx < dstart + C01_DELTAS.len() as u64 {
+        let target = C01_DELTAS[(idx - dstart) as usize];
+        let seed = mix(cfg.seed, tag_of("C01.delta"), target);
+        st.report("C01", &Case::Delta(crate::mem::DeltaCase { target, seed }));
+        return;
+    }
+    if idx == dstart + C01_DELTAS.len() as u64 || idx == dstart + C01_DELTAS.len() as u64 + 1 {
+        // dense families: far more keys than bytes (complete 256-ary and
+        // 10-ary trees), reopened and enumerated
+        let second = idx != dstart + C01_DELTAS.len() as u64;
+        let (f, l) = if second { (10u32, 5u32) } else { (256, 2) };
+        let case = MemBuildCase {
+            fam: KeyFamily { n: (f as u64).pow(l), fanout: f, keylen: l, seed: 1, pairs: false, leaf_fan: 0, decreasing: false },
+            map: second,
+            registry: None,
+            bufcap: None,
+            every: 1000,
+            shape: Shape::Full,
+            bulk: false,
+        };
+        st.report("C01", &Case::MemBuild(case));
+        return;
+    }
     if idx >= bigs && idx < bigs + C01_EXHAUSTIVE {
         let e = idx - bigs;
         st.report("C01", &Case::Build(c01_exhaustive_case(e)));
@@ -850,6 +889,42 @@ pub fn c20(cfg: &Cfg, idx: u64, st: &mut Stats) {
             }
             CorruptCase { base: Base::Raw(b), muts: vec![] }
         }
+        // a well-placed footer in front of node-shaped bytes: the root
+        // address is exactly where a root node would end, and the bytes
+        // there look like a node with many transitions (whose transition
+        // index would not fit) or with inconsistent pack sizes
+        7 if rng.chance(1, 2) => {
+            let version = *rng.pick(&[1u64, 2, 2, 3, 3]);
+            let footer = if version <= 2 { 16 } else { 20 };
+            let len = rng.urange(16 + footer + 1, 400);
+            let mut b: Vec<u8> = (0..len).map(|_| rng.next_u64() as u8).collect();
+            b[..8].copy_from_slice(&version.to_le_bytes());
+            b[8..16].copy_from_slice(&0u64.to_le_bytes());
+            let root = len - footer - 1;
+            // state byte of an any-transition node: 00ffnnnn (f = final flag,
+            // n = transition count, 0 = count in the preceding byte)
+            let fin = if rng.chance(1, 2) { 0x40u8 } else { 0 };
+            match rng.below(4) {
+                0 => b[root] = fin | rng.range(33, 63) as u8,
+                1 => {
+                    b[root] = fin;
+                    if root > 16 {
+                        b[root - 1] = *rng.pick(&[1u8, 33, 64, 65, 200, 255]);
+                    }
+                }
+                2 => b[root] = fin | rng.range(1, 32) as u8,
+                _ => b[root] = rng.next_u64() as u8,
+            }
+            if root > 18 && rng.chance(1, 2) {
+                // pack sizes byte: transition and output widths 1..8
+                let at = root - 1 - (b[root] & 0x3f == 0) as usize;
+                b[at] = ((rng.range(1, 8) as u8) << 4) | rng.range(0, 8) as u8;
+            }
+            let e = b.len();
+            b[e - footer..e - footer + 8].copy_from_slice(&rng.pick(&[0u64, 1, 40, 1 << 20, u64::MAX]).to_le_bytes());
+            b[e - footer + 8..e - footer + 16].copy_from_slice(&(root as u64).to_le_bytes());
+            CorruptCase { base: Base::Raw(b), muts: vec![] }
+        }
         // plain random strings
         _ => {
             let len = rng.urange(0, 200);
@@ -1296,7 +1371,7 @@ pub fn c13_cases(cfg: &Cfg) -> Vec<MemBuildCase> {
     }
     // the opposite extreme: complete F-ary trees (keylen == counter width),
     // i.e. very long stretches of keys that create no new node at all
-    for (i, (f, l, g)) in [(2u32, 20u32, None), (4, 10, Some((64usize, 2usize))), (2, 18, Some((1, 1)))].iter().enumerate() {
+    for (i, (f, l, g)) in [(2u32, 22u32, None), (4, 10, Some((64usize, 2usize))), (2, 18, Some((1, 1))), (4, 11, None)].iter().enumerate() {
         out.push(MemBuildCase {
             fam: KeyFamily { n: (*f as u64).pow(*l), fanout: *f, keylen: *l, seed: seed ^ 0xde5e ^ i as u64, pairs: false, leaf_fan: 0, decreasing: false },
             map: i == 1,
